@@ -488,6 +488,8 @@ def check(ctx):
     o.stats = {'attributes_read_from_actions': sorted({(f, a) for f, a, _ in reads})}
     obs.append(ctx.shared('c16', 'C16.6', 'C15.6', 'a record carries the value of the part at that moment: for a batch that is the sum over its parts computed when read '
                           '(a cached sum shows the value from before processing)'))
+    obs.append(ctx.shared('c13', 'C13.8', 'C15.7', 'a failure record names the part that was lost: the test that decides between the part\'s id and "nothing lost" is a truth test '
+                          'on the part, which is right only while no class of the Part hierarchy can be falsy (an empty batch with __len__ is recorded as nothing)'))
     return obs
 
 
